@@ -5,4 +5,9 @@
 /* a usable table object: TMCG_MAX_FPOWM_T integers */
 #define TABLE_OK(t) __CPROVER_is_fresh((t), TMCG_MAX_FPOWM_T * sizeof(mpz_t))
 #define THROWN_IS(e) (__tmcg_thrown == (e))
+/* bit k of a non-negative word, as a multiplicity */
+#define BITK(a, k) ((unsigned long)((k) < 63 ? ((a) >> ((k) < 63 ? (k) : 0)) & 1L : 0L))
+#ifdef GMP_ABS_TRACK_E
+#define E_FIELD(r) ((r)->e)
+#endif
 #endif
